@@ -94,3 +94,15 @@ pub fn m_dbg3() -> Arc<Databases> {
     let r2 = process_request("create-db d tok", &dbs, &mut client);
     dbs
 }
+pub fn m_race() {
+    let db = Arc::new(Database::new(String::from("d"), DatabaseMataData::new(1, ConsensuStrategy::None)));
+    let k = String::from("k");
+    db.set_value(&Change::new(k.clone(), String::from("v0"), -1));
+    let cur = db.get_value(k.clone()).unwrap().version;
+    let d1 = db.clone(); let d2 = db.clone();
+    let t1 = vsym::spawn(move || match d1.set_value(&Change::new(String::from("k"), String::from("a"), cur)) { Response::Set { .. } => true, _ => false });
+    let t2 = vsym::spawn(move || match d2.set_value(&Change::new(String::from("k"), String::from("b"), cur)) { Response::Set { .. } => true, _ => false });
+    let r1 = vsym::join(t1);
+    let r2 = vsym::join(t2);
+    vsym::check(!(r1 && r2));
+}
